@@ -23,6 +23,8 @@ TEXT_GRAMMARS = {
     'meta': "start: @int | @name @uint | @bool ;\n",
     'eol': "start: 'a' $-> 'b' | 'a' ;\n",
     'based_rule': "start: d | b ;\nb: 'a' ;\nd < b: 'b' ;\n",
+    'cut_in_group': "start: ('x' ~ 'y') 'z' | 'x' 'y' 'w' | 'x' ;\n",
+    'cut_in_group_in_optional': "start: [('a' ~) 'b'] 'a' ['c'] ;\n",
     'nested_closures_named': "start: items+={ ','.{ item }+ ';' } $ ;\nitem: /[ab]/ ;\n",
 }
 SETTINGS = {
@@ -117,25 +119,29 @@ def plan(tier, seed):
     setts = ['default', 'noguard'] if tier == 'quick' else list(SETTINGS)
     for name, rules in core:
         for sn in setts:
+            if tier == 'quick' and sn != 'default' and name not in CORE_QUICK[:6]:
+                continue
             for n in range(0, maxn + 1):
                 if tier == 'quick' and sn != 'default' and n < 3:
                     continue
                 spec = {'grammar': name, 'rules': rules, 'n': n, 'settings': SETTINGS[sn], 'ref': False, 'gen': True}
                 obs.append(Ob(name=f'{name}_{sn}_L{n}', factory='vt.pegbody:make_peg', spec=spec, params=[(f'c{i}', 0, UNI) for i in range(n)], budget=BUDGET[n], group=sn))
     for name, g in TEXT_GRAMMARS.items():
-        ss = {'directives_case': ['default', 'noguard'], 'name_keyword': ['default', 'ignorecase'], 'meta': ['default', 'ws'], 'named_group': ['default', 'parseinfo']}.get(name, ['default'])
+        ss = {'directives_case': ['default', 'noguard'], 'name_keyword': ['default', 'ignorecase'], 'meta': ['default', 'ws'], 'named_group': ['default', 'parseinfo'], 'cut_in_group': ['noguard'], 'cut_in_group_in_optional': ['noguard']}.get(name, ['default'])
         if tier != 'quick':
             ss = list(SETTINGS)
         for sn in ss:
             for n in range(0, maxn + 1):
+                if tier == 'quick' and name == 'meta' and n == 3:
+                    continue        # int()/float() realise every digit: length 3 is left to the thorough tier
                 spec = {'grammar': name, 'gtext': g, 'n': n, 'settings': SETTINGS[sn], 'gen': True,
-                        'warm': ['', 'a', 'ab', 'aB', 'a b', 'abc', 'a-a', 'if', 'x', 'a,b', 'a;', 'b;', '1', '-1', 'a 1', 'true', 'ba', 'bab', 'a\nb', 'a#b', 'aAB', 'a(*', 'ab ', 'abab']}
+                        'warm': ['', 'a', 'ab', 'aB', 'a b', 'abc', 'a-a', 'if', 'x', 'a,b', 'a;', 'b;', '1', '-1', 'xyw', 'xyz', 'xy', 'ac', 'abc', 'x y', 'a 1', 'true', 'ba', 'bab', 'a\nb', 'a#b', 'aAB', 'a(*', 'ab ', 'abab']}
                 # @int/@uint/@float call int()/float() on the matched text, which realises each digit: restrict this grammar to ASCII
                 pre = ' and '.join(f'c{i} < 128' for i in range(n)) if name == 'meta' else ''
                 obs.append(Ob(name=f'{name}_{sn}_L{n}', factory='vt.pegbody:make_peg', spec=spec, params=[(f'c{i}', 0, UNI) for i in range(n)], budget=BUDGET[n], group='text:' + sn,
                               extra_pre=pre))
     obs.append(Ob(name='K_safe_name_1', factory='vt.props.c02:make_names', spec={'n': 1}, params=[(f'c{i}', 0, UNI) for i in range(2)], budget=120, group='kernel'))
-    obs.append(Ob(name='K_safe_name_2', factory='vt.props.c02:make_names', spec={'n': 2}, params=[(f'c{i}', 0, UNI) for i in range(4)], budget=200 if tier == 'quick' else 1800, group='kernel'))
+    obs.append(Ob(name='K_safe_name_2', factory='vt.props.c02:make_names', spec={'n': 2}, params=[(f'c{i}', 0, UNI) for i in range(4)], budget=90 if tier == 'quick' else 1800, group='kernel'))
     progs = len(core) + len(TEXT_GRAMMARS)
     return {
         'obligations': obs,
